@@ -1002,10 +1002,10 @@ class ArmV6:
         table_user = True
         table_xn = False
         table_pxn = False
-        lookup_finished = True
+        lookup_finished = False
         output_address = 0b0000000000000000000000000000000000000000
         attrs = 0b0000000000000
-        while lookup_finished:
+        while not lookup_finished:
             lookup_finished = True
             block_translate = False
             offset = 9 * current_level
